@@ -107,15 +107,15 @@ std::vector<std::string> World::EffectiveTargets(const InvPlan& p) const {
   if (!sc.defaults.empty()) return sc.defaults;
   std::vector<std::string> r;
   std::set<std::string> consumed;
+  // (as the manifest alone defines it: what dyndep files add is not known yet
+  // when the root nodes are determined)
   for (const Stmt& s : sc.stmts) {
     if (!s.alive) continue;
-    std::vector<std::string> in;
-    AddInputs(sc, s, &in);
-    for (auto& x : in) consumed.insert(x);
+    for (auto* v : {&s.ins, &s.imp_ins, &s.oo_ins}) for (auto& x : *v) consumed.insert(x);
   }
   for (const Stmt& s : sc.stmts) {
     if (!s.alive) continue;
-    for (auto& o : sc.DeclaredOuts(s.id)) if (!consumed.count(o)) r.push_back(o);
+    for (auto& o : s.AllOuts()) if (!consumed.count(o)) r.push_back(o);
   }
   return r;
 }
@@ -395,6 +395,7 @@ InvRecord World::RunInvocation(const InvPlan& plan) {
   }
   std::string lb, ld;
   bool hb = k.ReadFile(sc.LogDir() + ".ninja_log", &lb), hd = k.ReadFile(sc.LogDir() + ".ninja_deps", &ld);
+  for (auto& d : sc.dyndeps) if (k.Exists(d.path)) r.dd_at_start.insert(d.path);
   r.log_before = FoldBuildLog(lb, hb);
   r.log_torn_tail_before = hb && !lb.empty() && lb.back() != '\n';
   r.deps_before = FoldDepsLog(ld, hd);
